@@ -80,6 +80,8 @@ type ref struct {
 	sel   int    // 0 name, 1 position, 2 first(), 3 last()
 	prop  int    // 0 value, 1 offset, 2 endoffset
 	posns []int  // sel 0: positions covered by the name; sel 1: the position
+	// untyped: a value reference that can only name the untyped terminal
+	untyped bool
 }
 
 // ---- printing
@@ -392,6 +394,7 @@ func (r *rule) analyse() {
 			}
 		}
 		if r.noFL {
+			r.markUntyped(refs)
 			a.refs = refs
 			continue
 		}
@@ -407,7 +410,21 @@ func (r *rule) analyse() {
 				ref{Text: "${last().offset}", Class: "last.offset", sel: 3, prop: 1},
 				ref{Text: "${last().endoffset}", Class: "last.endoffset", sel: 3, prop: 2})
 		}
+		r.markUntyped(refs)
 		a.refs = refs
+	}
+}
+
+func (r *rule) markUntyped(refs []ref) {
+	for i := range refs {
+		if refs[i].prop == 0 && len(refs[i].posns) > 0 {
+			refs[i].untyped = true
+			for _, p := range refs[i].posns {
+				if n := r.posOf[p]; n.k != kSym || n.sym != "tu" {
+					refs[i].untyped = false
+				}
+			}
+		}
 	}
 }
 
@@ -569,6 +586,9 @@ func termType(t string) string {
 	if t == "tp" {
 		return "int" // P computes its value from it
 	}
+	if t == "tu" {
+		return "" // the untyped terminal: no type, no lexer action, hence no value
+	}
 	if (t[1]-'a')%2 == 1 {
 		return "string"
 	}
@@ -581,6 +601,9 @@ func termType(t string) string {
 func symValue(n *node, start int) string {
 	if n.sym == "P" {
 		return fmt.Sprintf("float64:%d.5", 300+start)
+	}
+	if termType(n.sym) == "" {
+		return "<nil>:<nil>" // an untyped terminal has no value
 	}
 	if termType(n.sym) == "string" {
 		return fmt.Sprintf("string:s%d", start)
@@ -721,6 +744,10 @@ var catalogue = []itemDef{
 		e := a.sym()
 		return &node{k: kList, elem: []string{e}, sep: a.sym(), star: true, alias: a.alias()}
 	}},
+	{"U", func(a *alloc) *node { return S("tu") }},
+	{"(s|P)[x]", func(a *alloc) *node {
+		return &node{k: kChoice, alts: [][]*node{{S(a.sym())}, {S("P")}}, alias: a.alias()}
+	}},
 	{"dup", func(a *alloc) *node {
 		if a.first == "" {
 			return nil
@@ -752,8 +779,8 @@ func buildBody(items []int) []*node {
 	var count func(seq []*node)
 	count = func(seq []*node) {
 		for _, n := range seq {
-			if n.k == kSym && n.sym == "P" {
-				nP++
+			if n.k == kSym && (n.sym == "P" || n.sym == "tu") {
+				nP++ // (P and tu together are fine, but rare enough to leave out)
 			}
 			for _, al := range n.alts {
 				count(al)
@@ -788,6 +815,15 @@ func nullable(n *node) bool {
 			}
 		}
 		return false
+	}
+	return true
+}
+
+func nullableSeq(seq []*node) bool {
+	for _, n := range seq {
+		if !nullable(n) {
+			return false
+		}
 	}
 	return true
 }
